@@ -12,24 +12,28 @@ Definition sm2 : areq := mkReq 1 1 2 1 [] 2.
 
 Definition sample_cfg_history : list item :=
   [ (* node 1 times out: term 1, candidate *)
-    ([AStart 1], [(1, mkO 1 Candidate [] 0); (2, mkO 0 Follower [] 0)]);
+    ([AStart 1], [(1, mkO 1 Candidate [] 0 0); (2, mkO 0 Follower [] 0 0)]);
     (* nodes 2 and 3 grant *)
-    ([AGrant 2 1 1 []], [(2, mkO 1 Follower [] 0)]);
-    ([AGrant 3 1 1 []], [(3, mkO 1 Follower [] 0)]);
+    ([AGrant 2 1 1 []], [(2, mkO 1 Follower [] 0 0)]);
+    ([AGrant 3 1 1 []], [(3, mkO 1 Follower [] 0 0)]);
     (* node 1 counts itself and node 2, wins, appends the no-op *)
-    ([ACount 1 1; ACount 1 2; AWin 1], [(1, mkO 1 Leader [sn1] 0)]);
-    (* client entry *)
-    ([AClient 1 5], [(1, mkO 1 Leader [sn1; sd5] 0)]);
+    ([ACount 1 1; ACount 1 2; AWin 1], [(1, mkO 1 Leader [sn1] 0 0)]);
+    (* client entry; the real leader happens to have flushed the no-op *)
+    ([AClient 1 5], [(1, mkO 1 Leader [sn1; sd5] 1 0)]);
     (* send, follower 2 receives *)
     ([ASend 1 0 2 0], []);
-    ([ARecv 2 sm1], [(2, mkO 1 Follower [sn1; sd5] 0)]);
+    ([ARecv 2 sm1], [(2, mkO 1 Follower [sn1; sd5] 2 0)]);
     (* acknowledgement read, commit *)
     ([AAck 1 2 2; ACommit 1 2 [1; 2]],
-     [(1, mkO 1 Leader [sn1; sd5] 2); (2, mkO 1 Follower [sn1; sd5] 0)]);
+     [(1, mkO 1 Leader [sn1; sd5] 2 2); (2, mkO 1 Follower [sn1; sd5] 2 0)]);
     (* heartbeat carries the commit index; the real follower may lag *)
     ([ASend 1 2 0 2; ARecv 2 sm2],
-     [(1, mkO 1 Leader [sn1; sd5] 2); (2, mkO 1 Follower [sn1; sd5] 1)]);
-    ([], [(2, mkO 1 Follower [sn1; sd5] 2); (3, mkO 1 Follower [] 0)]) ].
+     [(1, mkO 1 Leader [sn1; sd5] 2 2); (2, mkO 1 Follower [sn1; sd5] 2 1)]);
+    ([], [(2, mkO 1 Follower [sn1; sd5] 2 2); (3, mkO 1 Follower [] 0 0)]);
+    (* the leader appends an entry it does not flush, then crashes and restarts:
+       the entry is gone, the commit index is rebuilt from 0 *)
+    ([AClient 1 6], [(1, mkO 1 Leader [sn1; sd5; (1, PData 6)] 2 2)]);
+    ([ACrash 1 0], [(1, mkO 1 Follower [sn1; sd5] 2 0)]) ].
 
 Example sample_cfg_history_accepted :
   exists s, run_hist [1; 2; 3] sample_cfg_history = HOk s.
@@ -41,7 +45,7 @@ Proof. vm_compute. reflexivity. Qed.
 (* corrupted: after the receive, node 2 is observed with a different log *)
 Definition sample_cfg_bad_log : list item :=
   firstn 6 sample_cfg_history ++
-  [([ARecv 2 sm1], [(2, mkO 1 Follower [sn1; (1, PData 6)] 0)])].
+  [([ARecv 2 sm1], [(2, mkO 1 Follower [sn1; (1, PData 6)] 2 0)])].
 
 Example sample_cfg_bad_log_rejected :
   run_hist [1; 2; 3] sample_cfg_bad_log = HFail 6 2.
@@ -50,7 +54,7 @@ Proof. vm_compute. reflexivity. Qed.
 (* corrupted: node 3 is observed as a second leader of term 1 *)
 Definition sample_cfg_two_leaders : list item :=
   firstn 4 sample_cfg_history ++
-  [([], [(1, mkO 1 Leader [sn1] 0); (3, mkO 1 Leader [] 0)])].
+  [([], [(1, mkO 1 Leader [sn1] 0 0); (3, mkO 1 Leader [] 0 0)])].
 
 Example sample_cfg_two_leaders_rejected :
   run_hist [1; 2; 3] sample_cfg_two_leaders = HFail 4 14.
@@ -66,8 +70,40 @@ Proof. vm_compute. reflexivity. Qed.
 
 (* corrupted: an observed commit index ahead of the abstract one *)
 Definition sample_cfg_commit_ahead : list item :=
-  firstn 7 sample_cfg_history ++ [([], [(2, mkO 1 Follower [sn1; sd5] 1)])].
+  firstn 7 sample_cfg_history ++ [([], [(2, mkO 1 Follower [sn1; sd5] 2 1)])].
 
 Example sample_cfg_commit_ahead_rejected :
   explain_all [1; 2; 3] sample_cfg_commit_ahead = [(7%nat, 3%nat)].
+Proof. vm_compute. reflexivity. Qed.
+
+(* corrupted: the follower acknowledged without having flushed everything *)
+Definition sample_cfg_not_flushed : list item :=
+  firstn 6 sample_cfg_history ++ [([ARecv 2 sm1], [(2, mkO 1 Follower [sn1; sd5] 1 0)])].
+
+Example sample_cfg_not_flushed_rejected :
+  run_hist [1; 2; 3] sample_cfg_not_flushed = HFail 6 5.
+Proof. vm_compute. reflexivity. Qed.
+
+(* corrupted: after the crash the unflushed entry is still there *)
+Definition sample_cfg_crash_keeps : list item :=
+  firstn 11 sample_cfg_history ++
+  [([ACrash 1 0], [(1, mkO 1 Follower [sn1; sd5; (1, PData 6)] 2 0)])].
+
+Example sample_cfg_crash_keeps_rejected :
+  run_hist [1; 2; 3] sample_cfg_crash_keeps = HFail 11 2.
+Proof. vm_compute. reflexivity. Qed.
+
+(* instead of crashing, the old leader 1 (entry 3 unflushed) is deposed: node 2
+   wins term 2 and its heartbeat changes nothing in node 1's log, so node 1
+   flushes nothing (durable prefix still 2 of 3 entries) *)
+Definition sm3 : areq := mkReq 2 2 2 1 [] 2.
+Definition sample_cfg_heartbeat_no_flush : list item :=
+  firstn 11 sample_cfg_history ++
+  [ ([AStart 2; AGrant 3 2 2 [sn1; sd5]; ACount 2 2; ACount 2 3; AWin 2],
+     [(2, mkO 2 Leader [sn1; sd5; (2, PData 0)] 2 2)]);
+    ([ASend 2 2 0 2; ARecv 1 sm3],
+     [(1, mkO 2 Follower [sn1; sd5; (1, PData 6)] 2 2)]) ].
+
+Example sample_cfg_heartbeat_no_flush_accepted :
+  explain_all [1; 2; 3] sample_cfg_heartbeat_no_flush = [].
 Proof. vm_compute. reflexivity. Qed.
